@@ -623,7 +623,8 @@ def _gen_value_cases(rng, tier):
         pool = []
         while len(pool) < 3:
             v = _value(rng)
-            if _vk(v) not in [_vk(x) for x in pool]:
+            # (the DS string of the largest doubles reads back as inf, which no NUM item can carry: not restrung)
+            if _vk(v) not in [_vk(x) for x in pool] and abs(float(_ds_str(v))) != float('inf'):
                 pool.append(v)
         groups = [_values_group(rng, _group(rng, i, allow_ris=False), pool) for i in range(ng)]
         muts = []
